@@ -30,6 +30,13 @@ PREFIXES = [0, 1, 2, 3, 0x7f, 0x100, 0xffff, 2 ** 48 - 2, 2 ** 48 - 1]
 SUFFIXES = [0, 1, 2, 3, 0x7f, 0x100, 0xfffe, 0xffff]
 
 
+def safe_len(idx):
+    try:
+        return len(idx)
+    except Exception as e:      # noqa: B902  (a length Python itself rejects is an answer to compare, not a harness crash)
+        return 'len() raises %r' % (e,)
+
+
 def key_bytes(k):
     return struct.pack('>Q', k)
 
@@ -48,6 +55,7 @@ def op_strategy():
         st.tuples(st.just('set'), any_key, value),
         st.tuples(st.just('del'), any_key),
         st.tuples(st.just('update'), st.lists(st.tuples(any_key, value), max_size=4)),
+        st.tuples(st.just('update_from_index'), st.lists(st.tuples(any_key, value), max_size=4)),
         st.tuples(st.just('clear')),
         st.tuples(st.just('q'), st.sampled_from(QUERIES), any_key),
         st.tuples(st.just('q'), st.sampled_from(['minKey', 'maxKey']), any_key),
@@ -143,6 +151,13 @@ def execute(case):
             idx.update(d)
             for k, v in op[1]:
                 model[k] = v
+        elif kind == 'update_from_index':
+            other = fsIndex()
+            for k, v in op[1]:
+                other[key_bytes(k)] = v
+            idx.update(other)
+            for k, v in op[1]:
+                model[k] = v
         elif kind == 'del':
             def d():
                 del idx[key_bytes(op[1])]
@@ -199,7 +214,7 @@ def execute(case):
                                  sorted(map(hex, model)), name, k, got, exp))
                     continue
             elif name == 'len':
-                got, exp = ('ok', len(idx)), ('ok', len(model))
+                got, exp = ('ok', safe_len(idx)), ('ok', len(model))
             elif name == 'keys':
                 got = ('ok', [struct.unpack('>Q', x)[0] for x in idx.keys()])
                 exp = ('ok', sorted(model))
@@ -218,7 +233,7 @@ def execute(case):
                              sorted(map(hex, model))[:12], name, k, str(got)[:300], str(exp)[:300]))
     # final full comparison
     got = [(struct.unpack('>Q', x)[0], v) for x, v in idx.iteritems()]
-    if got != sorted(model.items()) or len(idx) != len(model):
+    if got != sorted(model.items()) or safe_len(idx) != len(model):
         out.fail((PROPERTY, 'final-scan', 'wrong-result'),
                  'items %r expected %r' % (got[:10], sorted(model.items())[:10]))
     # point queries for every key present (whatever its position, 0 included) and its neighbours
